@@ -64,8 +64,8 @@ theorem decide1_profit (ov : Dec) (thr avail pp ba : Int) (tr : Dec) (b π : Int
     · simp only [Option.some.injEq, Prod.mk.injEq] at h
       omega
 
-theorem stage1_acc (A P : Int) (o : Nat) (ov mult : Dec) (thr : Int) (f : FInfo) (i : Nat) (h : Acc A P f) :
-    Acc A P (stage1 o ov mult thr f i).2.2.2 := by
+theorem stage1_acc (A P : Int) (o : Nat) (ov mult : Dec) (thr : Int) (f : FInfo) (pe : Part × PExp) (h : Acc A P f) :
+    Acc A P (stage1 o ov mult thr f pe).2.2.2 := by
   obtain ⟨h1, h2, h3, h4, h5⟩ := h
   have hpp0 : 0 ≤ f.payoutProfit.truncInt := chopTrunc_ge_zero h4
   have hpp1 : f.payoutProfit.truncInt * PREC ≤ f.payoutProfit.raw := chopTrunc_le_of_nonneg h4
@@ -99,17 +99,20 @@ theorem stage1_acc (A P : Int) (o : Nat) (ov mult : Dec) (thr : Int) (f : FInfo)
 
 theorem visit_acc (A P : Int) (o : Nat) (ov mult : Dec) (mo : List Nat) (ms : List (Nat × Dec)) (thr : Int) (f : FInfo) (i : Nat)
     (h : Acc A P f) : Acc A P (visit o ov mult mo ms thr f i) := by
-  have h1 := stage1_acc A P o ov mult thr f i h
-  have h2 := stage2_core o mo ms thr (stage1 o ov mult thr f i)
-  have h3 := stage3_core o (stage2 o mo ms thr (stage1 o ov mult thr f i))
   unfold visit
-  obtain ⟨a1, a2, a3, a4, a5⟩ := h1
-  constructor
-  · rw [h3.1, h3.2.1, h2.1, h2.2.1]; exact a1
-  · rw [h3.1, h3.2.2.1, h2.1, h2.2.2.1]; exact a2
-  · rw [h3.2.2.2, h3.2.1, h2.2.2.2, h2.2.1]; exact a3
-  · rw [h3.2.2.2, h2.2.2.2]; exact a4
-  · rw [h3.2.1, h2.2.1]; exact a5
+  split
+  · exact ⟨h.1, h.2, h.3, h.4, h.5⟩
+  · rename_i pe _
+    have h1 := stage1_acc A P o ov mult thr f pe h
+    have h2 := stage2_core o mo ms thr (stage1 o ov mult thr f pe)
+    have h3 := stage3_core o (stage2 o mo ms thr (stage1 o ov mult thr f pe))
+    obtain ⟨a1, a2, a3, a4, a5⟩ := h1
+    constructor
+    · rw [h3.1, h3.2.1, h2.1, h2.2.1]; exact a1
+    · rw [h3.1, h3.2.2.1, h2.1, h2.2.2.1]; exact a2
+    · rw [h3.2.2.2, h3.2.1, h2.2.2.2, h2.2.1]; exact a3
+    · rw [h3.2.2.2, h2.2.2.2]; exact a4
+    · rw [h3.2.1, h2.2.1]; exact a5
 
 theorem loop_acc (A P : Int) (o : Nat) (ov mult : Dec) (mo : List Nat) (ms : List (Nat × Dec)) (thr : Int) :
     ∀ (q : List Nat) (f : FInfo), Acc A P f → Acc A P (loop o ov mult mo ms thr q f) := by
@@ -126,5 +129,72 @@ theorem loop_acc (A P : Int) (o : Nat) (ov mult : Dec) (mo : List Nat) (ms : Lis
     · split
       · exact hv
       · exact ih _ hv
+
+end Sge.Core
+
+namespace Sge.Core
+open Sge
+
+/-- the stake taken is the sum of the backing parts — for every payout profit, also a negative one -/
+theorem stage1_charged (o : Nat) (ov mult : Dec) (thr : Int) (f : FInfo) (pe : Part × PExp)
+    (h : f.fulfilled = sumBet f.fulfs) :
+    (stage1 o ov mult thr f pe).2.2.2.fulfilled = sumBet (stage1 o ov mult thr f pe).2.2.2.fulfs := by
+  unfold stage1
+  simp only
+  split
+  · rename_i bAmt π _
+    show f.fulfilled + bAmt = sumBet (f.fulfs ++ [_])
+    rw [sumBet_snoc]; simp only; omega
+  · exact h
+
+theorem visit_charged (o : Nat) (ov mult : Dec) (mo : List Nat) (ms : List (Nat × Dec)) (thr : Int) (f : FInfo) (i : Nat)
+    (h : f.fulfilled = sumBet f.fulfs) :
+    (visit o ov mult mo ms thr f i).fulfilled = sumBet (visit o ov mult mo ms thr f i).fulfs := by
+  unfold visit
+  split
+  · exact h
+  · rename_i pe _
+    have h1 := stage1_charged o ov mult thr f pe h
+    have h2 := stage2_core o mo ms thr (stage1 o ov mult thr f pe)
+    have h3 := stage3_core o (stage2 o mo ms thr (stage1 o ov mult thr f pe))
+    rw [h3.1, h3.2.1, h2.1, h2.2.1]; exact h1
+
+theorem loop_charged (o : Nat) (ov mult : Dec) (mo : List Nat) (ms : List (Nat × Dec)) (thr : Int) :
+    ∀ (q : List Nat) (f : FInfo), f.fulfilled = sumBet f.fulfs →
+      (loop o ov mult mo ms thr q f).fulfilled = sumBet (loop o ov mult mo ms thr q f).fulfs := by
+  intro q
+  induction q with
+  | nil => intro f h; exact h
+  | cons i rest ih =>
+    intro f h
+    unfold loop
+    simp only
+    have hv := visit_charged o ov mult mo ms thr f i h
+    split
+    · exact hv
+    · split
+      · exact hv
+      · exact ih _ hv
+
+theorem processWager_charged (b b' : Book) (o betId : Nat) (ov mult : Dec) (mo : List Nat) (ms : List (Nat × Dec))
+    (thr A : Int) (P : Dec) (fulfs : List Fulf) (taken : Int)
+    (h : processWager b o betId ov mult mo ms thr A P = some (b', fulfs, taken)) : taken = sumBet fulfs := by
+  unfold processWager at h
+  simp only [bind, Option.bind_eq_some_iff] at h
+  obtain ⟨q, _, f0, hf0, h⟩ := h
+  have h0 : f0.fulfilled = sumBet f0.fulfs := by
+    unfold initFInfo at hf0
+    simp only [bind, Option.bind_eq_some_iff, pure, Option.some.injEq] at hf0
+    obtain ⟨_, _, _, _, _, _, _, _, rfl⟩ := hf0
+    rfl
+  have hl := loop_charged o ov mult mo ms thr q f0 h0
+  unfold finishWager at h
+  split at h
+  · cases h
+  · split at h
+    · cases h
+    · simp only [Option.some.injEq, Prod.mk.injEq] at h
+      obtain ⟨_, h2, h3⟩ := h
+      rw [← h3, ← h2]; exact hl
 
 end Sge.Core
